@@ -9,6 +9,7 @@ import (
 	"sort"
 	"strings"
 	"sync"
+	"sync/atomic"
 
 	"github.com/tychoish/fun/erc"
 	"github.com/tychoish/fun/ers"
@@ -442,6 +443,122 @@ func runC12(r *kit.Run) {
 		}
 		c12Collector(r, i, r.Rng("collector", i))
 	}
+	nt := int64(r.Scale(40, 2000))
+	if r.Build != "plain" {
+		nt /= 4
+	}
+	for i := int64(0); i < nt && !r.Stopped(); i++ {
+		if !r.Mine(i) {
+			continue
+		}
+		c12IterPrefix(r, i, r.Rng("iterprefix", i))
+	}
+}
+
+type seqErr int
+
+func (e seqErr) Error() string { return fmt.Sprintf("seq#%d", int(e)) }
+
+// c12IterPrefix: adders push numbered errors as fast as they can while
+// readers keep taking Collector.Iterator() and reading its first items.
+// Each adder's numbers increase, so in a "most recent first, each
+// exactly once" iterator the items of one adder are strictly
+// descending, and the newest item of an adder is not older than what
+// that adder had completed before Iterator() was called.
+func c12IterPrefix(r *kit.Run, idx int64, rng *rand.Rand) {
+	adders := 1 + rng.IntN(2)
+	readers := 2 + rng.IntN(5)
+	perAdder := 1500 + rng.IntN(3000)
+	prefix := 2 + rng.IntN(5)
+	procs := kit.ProcsFor(idx)
+	if procs < 2 {
+		procs = 2
+	}
+	desc := map[string]any{"adders": adders, "readers": readers, "adds_per_adder": perAdder, "prefix_read": prefix, "gomaxprocs": procs}
+	ec := &erc.Collector{}
+	done := make([]atomic.Int64, adders) // number of completed Adds per adder
+	var stop atomic.Bool
+	var mu sync.Mutex
+	var problem string
+	note := func(s string) {
+		mu.Lock()
+		if problem == "" {
+			problem = s
+		}
+		mu.Unlock()
+		stop.Store(true)
+	}
+	var iterations atomic.Int64
+	r.Eval()
+	kit.WithProcs(procs, func() {
+		var awg, rwg sync.WaitGroup
+		for k := 0; k < readers; k++ {
+			rwg.Add(1)
+			go func() {
+				defer rwg.Done()
+				defer func() {
+					if p := recover(); p != nil {
+						note(fmt.Sprintf("panic in Iterator reader: %v", p))
+					}
+				}()
+				ctx := context.Background()
+				completed := make([]int64, adders)
+				for !stop.Load() {
+					for a := range completed {
+						completed[a] = done[a].Load()
+					}
+					it := ec.Iterator()
+					last := make([]int64, adders)
+					var got []int64
+					for k := 0; k < prefix && it.Next(ctx); k++ {
+						se, ok := it.Value().(seqErr)
+						if !ok {
+							note(fmt.Sprintf("Iterator yields %v, which was never added", it.Value()))
+							return
+						}
+						a, seq := int(se)%adders, int64(se)/int64(adders)
+						got = append(got, int64(se))
+						if last[a] == 0 {
+							if seq < completed[a] {
+								note(fmt.Sprintf("Iterator taken after adder %d had completed %d Adds starts that adder at #%d: items %v", a, completed[a], seq, got))
+								return
+							}
+						} else if seq >= last[a] {
+							note(fmt.Sprintf("Iterator yields adder %d's #%d after its #%d (duplicate or not most-recent-first): items %v", a, seq, last[a], got))
+							return
+						}
+						last[a] = seq
+					}
+					iterations.Add(1)
+				}
+			}()
+		}
+		for a := 0; a < adders; a++ {
+			awg.Add(1)
+			go func(a int) {
+				defer awg.Done()
+				for j := 1; j <= perAdder && !stop.Load(); j++ {
+					ec.Add(seqErr(j*adders + a))
+					done[a].Store(int64(j))
+				}
+			}(a)
+		}
+		awg.Wait()
+		stop.Store(true)
+		rwg.Wait()
+	})
+	r.Count("iterprefix_iterators_checked", iterations.Load())
+	if problem != "" {
+		r.Violation("C12/Collector/iterator-during-add", idx, desc, problem, nil)
+		return
+	}
+	if ec.Len() != adders*perAdder {
+		r.Violation("C12/Collector/len", idx, desc, fmt.Sprintf("Len()=%d after %d Adds", ec.Len(), adders*perAdder), nil)
+		return
+	}
+	if iterations.Load() > 10 {
+		r.Distinct(fmt.Sprintf("iterprefix|a=%d|r=%d|p=%d", adders, readers, procs))
+	}
 }
 
 func keysOf(errs []error) []string {
@@ -507,10 +624,95 @@ func c12Collector(r *kit.Run, idx int64, rng *rand.Rand) {
 		}
 		mu.Unlock()
 	}
+	// an iterator taken at any moment yields each constituent added so far
+	// exactly once, most recent first: no duplicate, nothing that completed
+	// before the call is missing, and the constituents of one goroutine
+	// come newest first
+	origin := map[error][2]int{}
+	var tops []error // what the iterator yields for the Adds that have returned
+	register := func(g, j int, errs ...error) {
+		mu.Lock()
+		for _, e := range errs {
+			origin[e] = [2]int{g, j}
+		}
+		mu.Unlock()
+	}
+	checkIter := func() int {
+		mu.Lock()
+		before := append([]error(nil), tops...)
+		mu.Unlock()
+		it := ec.Iterator()
+		seen := map[error]int{}
+		var order []error
+		for it.Next(context.Background()) {
+			e := it.Value()
+			seen[e]++
+			order = append(order, e)
+			if len(order) > G*per*2+8 {
+				note("Iterator yields more items than were ever added")
+				return len(order)
+			}
+		}
+		mu.Lock()
+		defer mu.Unlock()
+		lastJ := map[int]int{}
+		for _, e := range order {
+			if seen[e] > 1 {
+				if problem == "" {
+					problem = fmt.Sprintf("Iterator taken during concurrent Adds yields %v %d times (%d items)", e, seen[e], len(order))
+				}
+				return len(order)
+			}
+			o, ok := origin[e]
+			if !ok {
+				if problem == "" {
+					problem = fmt.Sprintf("Iterator yields %v, which was never added", e)
+				}
+				return len(order)
+			}
+			if lj, ok := lastJ[o[0]]; ok && o[1] > lj {
+				if problem == "" {
+					problem = fmt.Sprintf("Iterator yields goroutine %d's add #%d after its add #%d: not most recent first", o[0], o[1], lj)
+				}
+				return len(order)
+			}
+			lastJ[o[0]] = o[1]
+		}
+		for _, e := range before {
+			if seen[e] == 0 {
+				if problem == "" {
+					problem = fmt.Sprintf("Iterator taken after Add(%v) had returned does not yield it (%d items)", e, len(order))
+				}
+				return len(order)
+			}
+		}
+		return len(order)
+	}
+	readers := 0
+	if idx%2 == 0 {
+		readers = 1 + rng.IntN(4)
+	}
 	r.Eval()
 	kit.WithProcs(procs, func() {
 		bar := kit.NewBarrier(G)
-		var wg sync.WaitGroup
+		var wg, rwg sync.WaitGroup
+		var addersDone atomic.Bool
+		for k := 0; k < readers; k++ {
+			rwg.Add(1)
+			go func() {
+				defer rwg.Done()
+				defer func() {
+					if p := recover(); p != nil {
+						note(fmt.Sprintf("panic in Iterator reader: %v", p))
+					}
+				}()
+				for !addersDone.Load() {
+					checkIter()
+				}
+				checkIter()
+			}()
+		}
+		defer func() { addersDone.Store(true); rwg.Wait() }()
 		for g := 0; g < G; g++ {
 			wg.Add(1)
 			go func(g int) {
@@ -523,26 +725,36 @@ func c12Collector(r *kit.Run, idx int64, rng *rand.Rand) {
 				bar.Wait()
 				lastLen := 0
 				for j, kind := range plans[g] {
-					var mine []error
+					var mine, top []error
 					switch kind {
 					case 0:
 						ec.Add(nil)
 					case 1:
 						e := errors.New(fmt.Sprintf("g%d-%d", g, j))
 						mine = []error{e}
+						register(g, j, e)
 						ec.Add(e)
 					case 2:
 						a, b := ers.Error(fmt.Sprintf("g%d-%d-a", g, j)), errors.New(fmt.Sprintf("g%d-%d-b", g, j))
 						mine = []error{a, b}
+						register(g, j, a, b)
 						ec.Add(ers.Join(a, nil, b))
 					case 3:
 						e := &typedErr{g*1000 + j, "c"}
+						w := fmt.Errorf("ctx: %w", e)
 						mine = []error{e}
-						ec.Add(fmt.Errorf("ctx: %w", e))
+						top = []error{w}
+						register(g, j, w)
+						ec.Add(w)
 					}
 					mu.Lock()
 					all = append(all, mine...)
 					total += len(mine)
+					if top != nil {
+						tops = append(tops, top...)
+					} else {
+						tops = append(tops, mine...)
+					}
 					mu.Unlock()
 					// whatever this goroutine added before is visible now
 					snap := ec.Resolve()
@@ -566,12 +778,7 @@ func c12Collector(r *kit.Run, idx int64, rng *rand.Rand) {
 							_ = ers.Unwind(snap)
 						}
 					case 1:
-						it := ec.Iterator()
-						cnt := 0
-						for it.Next(context.Background()) {
-							cnt++
-						}
-						if cnt < len(mine) {
+						if cnt := checkIter(); cnt < len(mine) {
 							note("Iterator shorter than what this goroutine added")
 						}
 					}
